@@ -10,7 +10,9 @@ from ..gen_prog import ProgGen
 LEVEL = "exploration"
 RULE = ("seeded random well-typed programs (1-6 statements over the prelude: arithmetic with prefixes, powers with integer / "
         "fractional / composite constant exponents, unit and dimension definitions, concrete, generic, inferred and "
-        "where-clause functions, conditionals, structs, lists, library generics) executed with the VM event trace on. "
+        "where-clause functions, conditionals, structs, lists, library generics, uses of `ans`/`_`) executed with the VM event "
+        "trace on; half of the programs are also offered with one equality site replaced by another dimension — the checker "
+        "should reject those (C02's question), and any that it accepts is judged like every accepted program. "
         "Monitor: every traced operator result, every argument and return value of a numbat-level call and every foreign-"
         "function result is matched by source span to the typed-AST node that produced it and its unit's dimension "
         "(UnitDB, computed from unit definitions) must equal the node's static type; raw values of defined globals, struct "
@@ -47,6 +49,9 @@ def shards(tier, seed):
     return [{"idx": i, "n": NSHARDS, "seed": seed, "count": n // NSHARDS} for i in range(NSHARDS)]
 
 
+ZERO_ANY_UNIT = [False]     # set while an ill-dimensioned variant is judged
+
+
 def value_dim_problem(db, value, static_type, what):
     """compare a structured run-time value with a structured static type; returns problem text or None"""
     if value is None or static_type is None:
@@ -64,8 +69,11 @@ def value_dim_problem(db, value, static_type, what):
             return None               # unit defined by an input that was rolled back: not judged
         if got == want:
             return None
-        if x == 0 and not value["unit"]:
-            return None               # polymorphic zero: unit-less zero inhabits every dimension
+        if x == 0 and (not value["unit"] or ZERO_ANY_UNIT[0]):
+            # polymorphic zero: a unit-less zero inhabits every dimension; in the ill-dimensioned variants a zero literal
+            # next to the replaced site legitimately absorbs the difference (`0 * (1 / inch) + 8 A`: the literal's
+            # dimension is whatever makes the sum consistent, the run-time value is `0 in⁻¹`)
+            return None
         return (f"{what}: value {value['text']!r} has dimension {dim_text(got)}, the checker inferred "
                 f"{dim_text(want)}")
     if t == "list" and vt == "list":
@@ -136,7 +144,7 @@ def check_trace(sh, db, r):
 
 
 def judge(sh, w, db, sid, code, inexact, witness_of=None):
-    case = {"code": code}
+    case = {"code": code, "ill_dimensioned_variant": ZERO_ANY_UNIT[0]}
     r = w.eval(sid, code, trace=True, nodes=True, stmts=True)
     if r.get("status") == "panic":
         sh.count("panics_left_to_C08")
@@ -248,6 +256,30 @@ def run_shard(sh, spec):
             r = judge(sh, w, db, sid, code, inexact)
             if r is not None and len(sh.samples) < 3 and r.get("ok"):
                 sh.sample({"program": code, "events": len(r.get("events") or []), "nodes": len(r.get("nodes") or [])})
+            # the hostile half: the same program with one equality site replaced by another dimension. The checker should
+            # reject it (C02 judges that); IF it is accepted, it is an accepted program like any other and must not go
+            # wrong at run time
+            if rng.random() < 0.5:
+                own = [s for s in stmts if s.get("sites")]
+                m = None
+                if own:
+                    target = rng.choice(own)
+                    try:
+                        m = pg.mutate(target)
+                    except (ArithmeticError, ValueError, TypeError):
+                        m = None
+                if m is not None:
+                    mcode = "\n".join(m[0] if s is target else s["text"] for s in stmts)
+                    sid2 = w.fork("p")
+                    try:
+                        sh.count("ill_dimensioned_variants_offered")
+                        ZERO_ANY_UNIT[0] = True
+                        r2 = judge(sh, w, db, sid2, mcode, inexact)
+                        if r2 is not None and (r2.get("ok") or r2.get("stage") == "runtime"):
+                            sh.count("ill_dimensioned_variants_accepted(judged like any accepted program)")
+                    finally:
+                        ZERO_ANY_UNIT[0] = False
+                        w.drop(sid2)
         except (WorkerDied, WorkerTimeout):
             sh.count("worker_died_left_to_C08")
             w.restart()
@@ -263,6 +295,7 @@ def replay(sh, case):
     w = get_worker()
     db = load_unitdb(w)
     sid = w.fork("p")
+    ZERO_ANY_UNIT[0] = bool(case.get("ill_dimensioned_variant"))
     judge(sh, w, db, sid, case["code"], inexact=("0.1" in case["code"] or "0.7" in case["code"] or "1.1" in case["code"]))
 
 
